@@ -94,6 +94,7 @@ typedef struct {
     ssize_t *rets;
     char err[160];
 } read_res;
+read_res lib_read_ctx(zckCtx *zck, const int *sched, int nsched, size_t cap, bool want_rets);
 read_res lib_read_all(int fd, const int *sched, int nsched, size_t cap, bool want_rets);
 void read_res_print(const read_res *r, FILE *out, bool want_rets);
 void read_res_free(read_res *r);
@@ -117,5 +118,7 @@ int cmd_pin(FILE *job, FILE *out);
 int cmd_meta(FILE *job, FILE *out);
 int cmd_chunkreq(FILE *job, FILE *out);
 int cmd_fault(FILE *job, FILE *out);
+int cmd_scan(FILE *job, FILE *out);
+int cmd_explore(FILE *job, FILE *out);
 
 #endif
